@@ -260,6 +260,12 @@ def _cat() -> List[Edit]:
         E("C05", "keyword-next-to-star-args-rejected-again", "signature.py", "                elif (\n                    actual_args.star_args is not None\n                    and not star_args_exhausted\n                    and param.name not in actual_args.keywords\n                ):\n", "                elif actual_args.star_args is not None and param.name in actual_args.keywords:\n                    self.show_call_error(\"both\", ctx)\n                    return None\n                elif (\n                    actual_args.star_args is not None\n                    and not star_args_exhausted\n                ):\n", "BREAK", "star-reject::both"),
         E("C05", "kwonly-missing-accepted-with-star-args", "signature.py", "                elif param.default is not None:\n                    bound_args[param.name] = DEFAULT, Composite(param.default)\n                elif actual_args.ellipsis:\n                    bound_args[param.name] = DEFAULT, ELLIPSIS_COMPOSITE\n                else:\n                    self.show_call_error(\n                        f\"Missing required argument '{param.name}'\", ctx\n                    )\n                    return None\n            elif param.kind is ParameterKind.VAR_POSITIONAL:", "                elif param.default is not None or actual_args.star_args is not None:\n                    bound_args[param.name] = DEFAULT, Composite(param.default)\n                elif actual_args.ellipsis:\n                    bound_args[param.name] = DEFAULT, ELLIPSIS_COMPOSITE\n                else:\n                    self.show_call_error(\n                        f\"Missing required argument '{param.name}'\", ctx\n                    )\n                    return None\n            elif param.kind is ParameterKind.VAR_POSITIONAL:", "BREAK", "star-accept::no-expansion-binds"),
         E("C05", "keep-rename-exhausted-flag", "signature.py", "star_args_exhausted", "star_args_ended", "KEEPALL"),
+        E("C07", "kwonly-conflict-check-removed", "signature.py", "                    if (\n                        their_param.name in consumed_positional\n                        or their_param.name in filled_by_args\n                    ):", "                    if False:", "BREAK", "multiple-values::keyword-accepted-by-expected-through-KEYWORD_ONLY"),
+        E("C07", "kwargs-arm-filters-by-consumed-positional", "signature.py", "                    and param.name not in consumed_required_pos_only\n", "                    and param.name not in consumed_positional\n", "BREAK", "unchecked-flow::into-actual-POSITIONAL_OR_KEYWORD::from-expected-VAR_KEYWORD"),
+        E("C07", "posonly-default-obligation-dropped", "signature.py", "                    if my_param.default is not None and their_params[i].default is None:\n                        return CanAssignError(\n                            f\"positional-only param {my_param.name!r} has no default\"\n                        )\n", "", "BREAK", "unsound::missing-required"),
+        E("C07", "pok-name-mismatch-accepted", "signature.py", "                    if my_param.name != their_params[i].name:\n                        return CanAssignError(\n                            f\"param name {their_params[i].name!r} does not match\"\n                            f\" {my_param.name!r}\"\n                        )\n", "", "BREAK", "unsound::"),
+        E("C07", "kwonly-type-check-dropped", "signature.py", "                        tv_map = their_kwonly.get_annotation().can_assign(\n                            my_annotation, ctx\n                        )\n", "                        tv_map = {}\n", "BREAK", "unchecked-flow::into-actual-KEYWORD_ONLY"),
+        E("C07", "keep-rename-filled-by-args", "signature.py", "filled_by_args", "reached_through_args", "KEEPALL"),
         E("C16", "keep-reversed-sorted", "node_visitor.py", "lines_to_remove = sorted(lines_to_remove, reverse=True)", "lines_to_remove = list(reversed(sorted(lines_to_remove)))", "KEEP"),
         E("C17", "keep-regex-class-order", "format_strings.py", "(?P<conversion_type>[diouxXeEfFgGcrs%ba])", "(?P<conversion_type>[abcdeEfFgGiorsuxX%])", "KEEP"),
         E("C18", "keep-sort-key-via-locals", "options.py", "        return (\n            not self.from_command_line,  # command line options first\n            self.priority,  # lower priority number first\n            -len(self.applicable_to),  # longest options first\n        )", "        return (\n            not self.from_command_line,\n            self.priority,\n            -len(self.applicable_to),\n        )", "KEEP"),
